@@ -1641,6 +1641,7 @@ pub fn free_dec<E: MkEngine>(x: &mut Exec, rng: &mut impl Rng, len: usize, big: 
     // pattern memory: after a reset / drop the previous round's arrival list is often replayed (same indexes,
     // new data), so that anything cached per pattern or per shape across rounds is exercised
     let mut this_round: Vec<(bool, usize)> = Vec::new();
+    let mut last_decoded: Vec<(bool, usize)> = Vec::new();
     let mut replay_queue: Vec<(bool, usize)> = Vec::new();
     for _ in 0..len {
         x.steps += 1;
@@ -1800,7 +1801,7 @@ pub fn free_dec<E: MkEngine>(x: &mut Exec, rng: &mut impl Rng, len: usize, big: 
                     given_o.clear();
                     given_r.clear();
                     replay_queue = if rng.gen_bool(0.5) { this_round.iter().rev().copied().collect() } else { Vec::new() };
-                    this_round.clear();
+                    last_decoded = std::mem::take(&mut this_round);
                 }
             }
         } else if roll < t_reset || obj.kind() == Kind::Rs {
@@ -1841,8 +1842,10 @@ pub fn free_dec<E: MkEngine>(x: &mut Exec, rng: &mut impl Rng, len: usize, big: 
                 round = None;
                 given_o.clear();
                 given_r.clear();
-                if !this_round.is_empty() && rng.gen_bool(0.6) {
-                    replay_queue = this_round.iter().rev().copied().collect();
+                // replay the arrivals of the interrupted round, or of the last decoded one, on the new shape
+                let src = if this_round.is_empty() { &last_decoded } else { &this_round };
+                if !src.is_empty() && rng.gen_bool(0.7) {
+                    replay_queue = src.iter().rev().copied().collect();
                 }
                 this_round.clear();
             }
